@@ -109,7 +109,7 @@ fn shared_steps(run: &Arc<RunCtx>, tid: u8, slot: u8, u: &Unimock, steps: &[Lend
             }
             LendStep::Check => held.check(run, tid, slot),
             LendStep::Yield => run.sched.yield_now(tid as usize, SITE_OP),
-            LendStep::MakeMut { .. } => unreachable!("make_mut needs an exclusive session"),
+            LendStep::MakeMut { .. } | LendStep::ViaMut { .. } => unreachable!("needs an exclusive session"),
         }
     }
     held.check(run, tid, slot);
@@ -156,9 +156,19 @@ pub fn exec_op(run: &Arc<RunCtx>, tid: u8, idx: u16, op: &Op) -> Result<(), Box<
                     // phases of shared borrows, separated by make_mut
                     let mut i = 0;
                     while i < steps.len() {
-                        let j = steps[i..].iter().position(|s| matches!(s, LendStep::MakeMut { .. })).map(|p| i + p).unwrap_or(steps.len());
+                        let j = steps[i..].iter().position(|s| matches!(s, LendStep::MakeMut { .. } | LendStep::ViaMut { .. })).map(|p| i + p).unwrap_or(steps.len());
                         shared_steps(run, tid, slot, &u, &steps[i..j], lent_id);
                         if j < steps.len() {
+                            if let LendStep::ViaMut { val } = steps[j] {
+                                with_tl(|t| t.cur_val = val);
+                                let r = u.lend_via_mut(0);
+                                let ok = r.id == val && r.intact();
+                                let addr = r as *const ValA as u64;
+                                ev(run, tid, slot, LendWhat::Taken { val, kind: LendKind::ViaHelper, addr });
+                                if !ok {
+                                    ev(run, tid, slot, LendWhat::Bad { val, what: "the &mut provided method returned a reference to another value".into() });
+                                }
+                            }
                             if let LendStep::MakeMut { val } = steps[j] {
                                 with_tl(|t| t.cur_val = val);
                                 ev(run, tid, slot, LendWhat::MakeMutStart { val });
